@@ -22,7 +22,10 @@ func init() {
 			return fmtF(d.InvCDF(a[3].F()))
 		case "misc":
 			lo, hi := d.Bounds()
-			return fmt.Sprintf("%s %s %s %s", fmtF(d.Mean()), fmtF(d.Variance()), fmtF(lo), fmtF(hi))
+			seed := int64(math.Float64bits(d.Mu)>>7) ^ int64(math.Float64bits(d.Sigma)>>5)
+			r1 := d.Rand(rand.New(rand.NewSource(seed)))
+			z := rand.New(rand.NewSource(seed)).NormFloat64()
+			return fmt.Sprintf("%s %s %s %s %s %s %s", fmtF(d.Mean()), fmtF(d.Variance()), fmtF(lo), fmtF(hi), fmtF(r1), fmtF(z), fmtF(d.Rand(nil)))
 		}
 		panic("nd method")
 	}
@@ -103,6 +106,8 @@ func genC05(w *bufio.Writer, tier string, rng *rand.Rand) {
 		sg := logUniform(rng, 1e-6, 1e6)
 		if rng.Intn(4) == 0 {
 			mu, sg = 0, 1
+		} else if rng.Intn(8) == 0 { // unit scale, shifted; unit shift, scaled
+			mu, sg = []float64{10, -0.5, 1e6}[rng.Intn(3)], 1
 		}
 		switch rng.Intn(8) {
 		case 0, 1:
